@@ -101,6 +101,9 @@ tally_cases = st.fixed_dictionaries({
 @st.composite
 def flow_cases(draw):
     scn = draw(gen.scenarios(min_jobs=1, max_jobs=6, max_groups=2))
+    # node-level resource monitoring with the real psutil-backed monitor: 'periodic' logs cpu/memory events (kept as
+    # Parquet files in the summary), 'aggregation' keeps running statistics
+    scn["monitor"] = draw(st.sampled_from(["none", "none", "periodic", "aggregation"]))
     return {"kind": "flow", "scn": scn, "schedule": draw(gen.schedules(120)),
             "resubmit": draw(st.sampled_from([False, False, True])),
             "user": draw(st.lists(st.fixed_dictionaries({"at": st.integers(10, 200), "cmd": st.sampled_from(["try", "show"])}), max_size=2))}
@@ -448,7 +451,8 @@ def run_flow(case, res):
                 return
             written = {}
             files = set()
-            for fname, text, by in w.events_written:
+            late = {}
+            for fname, text, by, seq in w.events_written:
                 if not os.path.realpath(fname).startswith(os.path.realpath(sim.out) + os.sep):
                     continue
                 try:
@@ -456,15 +460,32 @@ def run_flow(case, res):
                 except ValueError:
                     v.append(D.viol("C20:event-record-not-json", f"{os.path.basename(fname)}: {text[:100]!r}"))
                     continue
+                # the record reached its file after the last time any process opened that file for reading: no
+                # consolidation of the run can contain it
+                if w.event_file_reads and not any(rf == os.path.abspath(fname) and rs > seq for rf, rs, _ in w.event_file_reads):
+                    late.setdefault(rec["name"], []).append((rec, by))
+                    continue
                 written.setdefault(rec["name"], []).append(rec)
                 files.add(os.path.basename(fname))
+            n_reads_before = len(w.event_file_reads)
             box = {}
 
+            resource_names = set(EventsSummary.RESOURCE_STATS)
+
+            def listing(summary):
+                out_ = {}
+                for n in written:
+                    if n in resource_names:
+                        # resource statistics are kept as one Parquet table per name: compare (timestamp, source) rows
+                        df = summary.get_dataframe(n)
+                        out_[n] = sorted((str(ts), str(src)) for ts, src in zip(df.index, df["source"])) if not df.empty else []
+                    else:
+                        out_[n] = [json.loads(str(e)) for e in summary.list_events(n)]
+                return out_
+
             def reader():
-                s1 = EventsSummary(sim.out)
-                box["lists"] = {n: [json.loads(str(e)) for e in s1.list_events(n)] for n in written}
-                s2 = EventsSummary(sim.out)
-                box["again"] = {n: [json.loads(str(e)) for e in s2.list_events(n)] for n in written}
+                box["lists"] = listing(EventsSummary(sim.out))
+                box["again"] = listing(EventsSummary(sim.out))
                 raise SystemExit(0)
 
             vt = w.spawn("reader", "login1", w.base_env, reader, "reader")
@@ -473,8 +494,23 @@ def run_flow(case, res):
                 v.append(D.viol("C20:flow-summary-failed", f"EventsSummary raised {vt.exc}"))
                 return
             key = lambda d: json.dumps(d, sort_keys=True)  # noqa: E731
+            for name, pairs in sorted(late.items()):
+                writers = sorted({by.rsplit(":", 1)[-1] for _, by in pairs})
+                res["classes"].append("flow_event_after_consolidation")
+                v.append(D.viol(f"C20:event-after-consolidation|writer={'+'.join(writers)}|{name}",
+                                f"{len(pairs)} {name} record(s) were written by {sorted({by for _, by in pairs})} after the finishing "
+                                f"submitter had read the event files; they are not in the consolidated summary "
+                                f"(e.g. {pairs[0][0]['source']} at {pairs[0][0]['timestamp']})"))
             for name, recs in written.items():
                 got = box["lists"][name]
+                if name in resource_names:
+                    want_rows = sorted((str(r["timestamp"]), str(r["source"])) for r in recs)
+                    if got != want_rows and name != "process_stats":
+                        v.append(D.viol("C20:flow-resource-events-differ", f"resource statistic {name}: {len(want_rows)} samples reached the "
+                                        f"event files, the summary table has {len(got)} rows"))
+                    if box["again"][name] != got:
+                        v.append(D.viol("C20:flow-consolidating-again-changes-events", f"resource statistic {name}"))
+                    continue
                 if sorted(map(key, got)) != sorted(map(key, recs)):
                     gk = list(map(key, got))
                     lost = [r for r in recs if key(r) not in gk]
@@ -490,6 +526,7 @@ def run_flow(case, res):
             res["counters"]["flow_events_written"] = sum(len(x) for x in written.values())
             res["nontrivial"] = len(files) >= 2 and sum(len(x) for x in written.values()) >= 4
             res["classes"].append("flow_reports_on" if scn["reports"] else "flow_reports_off")
+            res["classes"].append("flow_monitor:" + scn.get("monitor", "none"))
             if res["nontrivial"] or v:
                 res["sample"] = {"kind": "flow", "event_files": sorted(files), "written": {k: len(x) for k, x in written.items()},
                                  "jobs": len(scn["jobs"]), "reports": scn["reports"]}
